@@ -186,17 +186,17 @@ fn step_truncate() { let x = any_num();
     }, None => assert!(false, "never Err") } }
 
 // ---- power -------------------------------------------------------------------------------------------------------
-// @obligation owners=C09,C10,C13 fn=eval_number::ast::eval/Pow(Float,Float)
+// @obligation owners=C09,C10,C13 fn=eval_number::ast::eval/Pow(Float,Float) tier=open
 #[kani::proof]
 #[kani::stub(f64::powf, s_powf)]
 fn step_pow_ff() { let x: f64 = kani::any(); let y: f64 = kani::any();
     match ok(eval(Node::Pow(flt(x), flt(y)))) { Some(r) => assert!(once2(20, x, y) && is_from(&r, res()), "powf(base, exponent) on the operands' values"), None => assert!(false, "never Err") } }
-// @obligation owners=C09,C10 fn=eval_number::ast::eval/Pow(Float,Integer)
+// @obligation owners=C09,C10 fn=eval_number::ast::eval/Pow(Float,Integer) tier=open
 #[kani::proof]
 #[kani::stub(f64::powf, s_powf)]
 fn step_pow_fi() { let x: f64 = kani::any(); let y: i64 = kani::any();
     match ok(eval(Node::Pow(flt(x), int(y)))) { Some(r) => assert!(once2(20, x, y as f64) && is_from(&r, res()), "powf(base, exponent) on the operands' values"), None => assert!(false, "never Err") } }
-// @obligation owners=C09,C10 fn=eval_number::ast::eval/Pow(Integer,Float)
+// @obligation owners=C09,C10 fn=eval_number::ast::eval/Pow(Integer,Float) tier=open
 #[kani::proof]
 #[kani::stub(f64::powf, s_powf)]
 fn step_pow_if() { let x: i64 = kani::any(); let y: f64 = kani::any();
@@ -224,7 +224,7 @@ fn step_factorial_int() { let n: i64 = kani::any();
         if n >= 0 && n <= 20 { let mut f: i64 = 1; let mut i: i64 = 2; while i <= n { f *= i; i += 1; } assert!(matches!(r, Number::Integer(v) if v == f), "n! exactly, 0 <= n <= 20") }
         else { assert!(matches!(r, Number::Float(_)), "outside 0..=20: a Float (Gamma)") }
     }, None => assert!(false, "never Err") } }
-// @obligation owners=C01,C02 fn=eval_number::ast::eval/Factorial(Float)
+// @obligation owners=C01,C02 fn=eval_number::ast::eval/Factorial(Float) tier=open
 #[kani::proof]
 #[kani::stub(f64::sin, s_sin)]
 #[kani::stub(f64::powf, s_powf)]
